@@ -707,16 +707,29 @@ def exp(x):
     return NF.atom(('expq', reg(x)))
 
 
-def drop_inf(x):
-    """exp(-INF) == 0 exactly (IEEE): monomials that contain exp(INF * positive) to a negative power vanish.  A positive
-    power of such an atom (exp(+inf)) is left alone (the comparison then fails, which is right: the value is inf)."""
+def drop_inf(x, names=('INF',)):
+    """exp(-INF) == 0 and c/INF == 0 exactly (IEEE): monomials that contain exp(INF * positive) or INF itself to a negative
+    power (and no infinite factor) vanish.  A positive power (exp(+inf), inf) is left alone (the comparison then fails,
+    which is right: the value is inf)."""
+    def infinite(a):
+        return a[0] == 'sym' and a[1] in names
+
     def has_neg_inf(m):
+        neg = pos = False
         for a, e in m:
-            if a[0] == 'exp' and e < 0:
-                inner = dict(a[1])
-                if inner.get(('sym', 'INF'), 0) > 0 and all(atom_positive(b) for b, _ in a[1]):
-                    return True
-        return False
+            if infinite(a):
+                if e < 0:
+                    neg = True
+                else:
+                    pos = True
+            if a[0] == 'exp':
+                inner = a[1]
+                if any(infinite(b) and q > 0 for b, q in inner) and all(atom_positive(b) or infinite(b) for b, _ in inner):
+                    if e < 0:
+                        neg = True
+                    else:
+                        pos = True
+        return neg and not pos
     if not any(has_neg_inf(m) for m in x.num):
         return x
     if len(x.den) != 1:
@@ -781,6 +794,35 @@ PI = NF.atom(('pi',))
 
 def sym(name):
     return NF.sym(name)
+
+
+OPAQUE = {}
+OPAQUE_DEF = {}
+
+
+def intern_opaque(op, x, y):
+    """name of the symbol that stands for `x <op> y` kept uninterpreted (hash-consed: the same operation on the same
+    operands always gets the same name, so equality of names is equality of the computations)"""
+    k = (op, x.key(), y.key())
+    n = OPAQUE.get(k)
+    if n is None:
+        n = '#%d' % (len(OPAQUE) + 1)
+        OPAQUE[k] = n
+        OPAQUE_DEF[n] = (op, x, y)
+        SIGNED_SYMBOLS.add(n)
+    return n
+
+
+def show_opaque(x, depth=3):
+    """show() with the opaque symbols expanded `depth` levels"""
+    sgn = {'Add': '+', 'Sub': '-', 'Mult': '*', 'Div': '/', 'Pow': '**'}
+
+    def leaf(a):
+        if a[0] == 'sym' and a[1] in OPAQUE_DEF and depth > 0:
+            op, p, q = OPAQUE_DEF[a[1]]
+            return NF.sym('(%s %s %s)' % (show_opaque(p, depth - 1), sgn[op], show_opaque(q, depth - 1)))
+        return None
+    return show(transform(x, leaf))
 
 
 def isym(name):
